@@ -916,7 +916,7 @@ def phases(tier):
         return [{'nplain': 1, 'depth': 4, 'drop_empty': [0], 'por': True, 'complete_stream_blobs': False},
                 {'nplain': 2, 'depth': 3, 'drop_empty': [0], 'por': True, 'complete_stream_blobs': True}]
     return [{'nplain': 3, 'depth': 4, 'drop_empty': [0, NPLAIN + 1], 'por': True, 'complete_stream_blobs': True},
-            {'nplain': 1, 'depth': 6, 'drop_empty': [0, NPLAIN + 1], 'por': True, 'complete_stream_blobs': False}]
+            {'nplain': 1, 'depth': 6, 'drop_empty': [0], 'por': True, 'complete_stream_blobs': False}]
 
 
 def run(ctx):
